@@ -63,6 +63,10 @@ CHECKS = {
          "Schemas (type x 0-4 constraints from every constructor, nested to depth 2, via s:deftype and s:make-validator) are built in a real runtime and applied to values aimed at every comparison/length constant, pattern, key set and container emptiness; the model returns the set of documented outcomes (accept / wrong-type / failed-constraint) and the real verdict must lie in it; every 5th case plants one malformation that must be refused with bad-arguments at construction and never yield a silent pass; every map is also validated as string-keyed, symbol-keyed and JSON round-tripped twin.",
          "Trusts harness/c14x as the documented meaning (libschema README + docstrings); cases the docs do not decide are not judged (notes/NOTES-C14.md), in particular the strings \"true\"/\"false\" against s:bool/s:is-true/s:is-false, which the repository's own tests pin as accepted.",
          "DESIGN.md 4/C14"),
+ "C15": ("exploration", "reference-model runtime monitor: the time builtins judged by an independent strict RFC 3339 parser, proleptic-Gregorian day-number arithmetic in big.Int nanoseconds and an exact duration parser (no use of package time); Python datetime/fractions as an offline second oracle over a recorded sample; guarded wall-clock probes for sleep",
+         "Well-formed timestamps from a grammar (years 0000-9999, leap days, every offset, 0-9 fraction digits) must be accepted and round-trip to the second / nanosecond; 68 named near-miss mutations must be rejected (the mutation name is the finding key); pairs and triples of instants incl. equal instants under different offsets must be totally ordered consistently with the sign of time-from; time-add/time-from must be inverse without overflow; duration accessors must agree with exact arithmetic within 1 ulp; the cross product of (duration, :max, host ceiling, context deadline) around every boundary must be refused immediately with the documented condition or sleep no longer than requested.",
+         "Leap second :60, a space for T and 10+ fraction digits are generated but not judged; duration rounding may be floor or ceil per component; sleep timing uses a 1 s margin, a per-worker lateness probe that discards observations made while the process was starved, and needs 4 identical attempts (notes/NOTES-C15.md).",
+         "DESIGN.md 4/C15"),
  "C16": ("exploration", "metamorphic twin execution of the real formatter (format vs format-of-format, input vs output) judged by an oracle built only on the strict reader and the public lexer token stream",
          "Source texts (all repo .lisp files, random token trees with comments/blank lines/tabs/CRLF in every gap incl. inside prefix forms and before closing brackets, every literal spelling and bracket kind, 16 token-level mutations) are formatted under the CLI default config, random indent/blank-line/rules configs, compact+strip, and strip or compact alone; strict parses of input and output must be identical node by node, an independently read token tree must match in spellings and bracket kinds, every comment must survive in order anchored to the same tree path, Format(Format(x)) must equal Format(x) byte for byte, and rejected input must yield an error and zero bytes.",
          "The documented re-sugaring of #' / #^ and hoisting of comments out of a prefix gap are treated as allowed normalisations; layout is judged only through idempotence; violations are shrunk and keyed by the minimised input's class (notes/NOTES-C16.md).",
